@@ -57,6 +57,7 @@ FUNCTIONS_ENCODED = [
     "pyanalyze.stacked_scopes.extract_constraints / annotate_with_constraint (constraints carried by the value of a boolean `or`, incl. a disjunct without constraint)",
     "pyanalyze.predicates.IsAssignablePredicate / EqualsPredicate / InPredicate",
     "pyanalyze.name_check_visitor.NameCheckVisitor._constraint_from_compare_op / _constraint_from_predicate_provider (on a stub self)",
+    "pyanalyze.name_check_visitor.NameCheckVisitor._visit_single_compare (on the same stub: which operand is the constant, mirrored operators)",
     "pyanalyze.implementation._isinstance_impl / _issubclass_impl / _len_impl / len_of_value / len_transformer",
     "pyanalyze.boolability.get_boolability", "pyanalyze.value.is_overlapping / can_overlap, pyanalyze.annotated_types checks",
 ]
@@ -66,7 +67,7 @@ BOUNDS = {
               "data": "object payloads, literals in V, comparison constants: unbounded ints; str <= 2 chars; tuples <= 2 elements"},
     "thorough": {"values": "same", "conditions": "all pairs; and / or of two conditions on a sample", "data": "same"},
 }
-OUTSIDE = ["how visit_Compare / visit_BoolOp / visit_Call / patma select the constraint for a syntax tree", "TypeIs / TypeGuard functions and match patterns (need signature lookup through the visitor)",
+OUTSIDE = ["how visit_Compare (chains) / visit_BoolOp / visit_Call / patma select the constraint for a syntax tree; the dunder call and unsafe-comparison lint inside _visit_single_compare are stubbed", "TypeIs / TypeGuard functions and match patterns (need signature lookup through the visitor)",
            "scope bookkeeping of where a constraint is active", "for == / != / in the object has the type of the compared constant (no bool/int/float cross-type equality), as the property states"]
 STUBS = ["stub self for the two constraint factories (real Checker as CanAssignContext, composite_from_node returns the variable)", "coarse-hash stub"]
 ASSUMPTIONS = ["membership of an object in a narrowed Value: vmember() below (60 lines) mirrors vf/member.py on Value objects"]
